@@ -19,7 +19,11 @@ PIECES = [
     "if (RsV) { HEX_REG_ALIAS_PC = RtV; }", "HEX_REG_ALIAS_SP = RsV + 8;",
 ]
 FAILING = ["{ RdV = ; }", "{ while (RsV) { RdV = 1; } }", "{ a = 1; }", "{ RdV = foo(RsV); }", "{ P0 = 1; RdV = 4 / 2; }", "{ P1 = 1; RdV = RsV, 2; }",
-           "{ if (RsV) { P2 = mem_load_u8(EA); goto x; } }", "{ JUMP(RsV); P3 = bar; }"]
+           "{ if (RsV) { P2 = mem_load_u8(EA); goto x; } }", "{ JUMP(RsV); P3 = bar; }",
+           # rejected (or degenerate) behaviours whose FIRST construct already sets an attribute flag while nothing else was registered yet
+           "{ if (G0_NEW) { RdV = 1; } }", "{ (S1_NEW); RdV = RsV; }", "{ 1 ? bundle : P0_NEW; }", "{ RdV = OsN; }", "{ JUMP(foo); }",
+           "{ mem_store_u8(foo, 1); }", "{ P0 = foo; }", "{ if (foo) { RdV = 1; } }", "{ RdV = mem_load_u8(foo); }", "{ P1 = G0_NEW; }",
+           "{ if (1 ? bundle : P0_NEW) { JUMP(bar); } }"]
 
 CHECK = """From Coq Require Import ZArith NArith List Bool String.
 From RZ.model Require Import Ast Meta.
@@ -45,7 +49,7 @@ def histories(tier, rnd):
     for i in range(n):
         steps = []
         for _ in range(rnd.randint(2, 10)):
-            code = rnd.choice(FAILING) if rnd.random() < 0.2 else gen_program(rnd)
+            code = rnd.choice(FAILING) if rnd.random() < 0.3 else gen_program(rnd)
             steps.append({"c": rnd.choice([0, 0, 1]), "entry": rnd.choice(["insn", "insn", "insn", "stmt"]), "code": code})
         hs.append({"id": i, "steps": steps})
     # the history of the suite's formerly failing test and close relatives
